@@ -65,7 +65,7 @@ Definition sell_one (e : env) (seller : addr) (acc : state * list N) (o : sell_r
   s <- escrow_credits seller bk q s ;;
   _ <- check (is_denom_allowed s (c_denom ask)) LInvalid ;;
   let id := (sell_order_seq_id s + 1)%N in
-  let s := s <| sell_orders := <[id := {| so_seller := seller; so_batch_key := bk; so_quantity := sl_quantity o;
+  let s := s <| sell_orders := <[id := {| so_seller := seller; so_batch_key := bk; so_quantity := to_string q;
                                           so_market_id := market_id; so_ask_amount := c_amount ask;
                                           so_disable_auto_retire := sl_disable_auto_retire o;
                                           so_expiration := sl_expiration o; so_maker := true |}]> (sell_orders s) |>
@@ -111,10 +111,10 @@ Definition update_one (e : env) (seller : addr) (s : state) (u : update_req) : l
         match cmp nq cq with
         | Gt => d <- lift (sub nq cq) ;;
                 s <- escrow_credits (so_seller o) (so_batch_key o) d s ;;
-                LOk (s, up_quantity u)
+                LOk (s, to_string nq)
         | Lt => d <- lift (sub cq nq) ;;
                 s <- unescrow_credits (so_seller o) (so_batch_key o) (to_string d) s ;;
-                LOk (s, up_quantity u)
+                LOk (s, to_string nq)
         | Eq => LOk (s, so_quantity o)
         end
     end ;;
